@@ -366,7 +366,7 @@ Proof.
     destruct (w_queue w); [exact HT|].
     cbn [trace emit]. apply TrI_emit_other; [exact I|]. unfold guard_drop. destruct (Z.eqb _ _); exact HT.
   - destruct (nth_error (ws st) g) as [w|]; [|exact HT]. destruct (w_open w); [|exact HT].
-    apply G. exact HT.
+    apply G. cbn [trace emit]. apply TrI_emit_other; [exact I|exact HT].
   - exact HT.
   - exact HT.
   - destruct (nth_error (lsts st) tok); exact HT.
